@@ -1,5 +1,7 @@
 #!/bin/bash
-# Runs the repository's own suite (guard OFF) and prints pass/fail counts in the BASELINE.json naming.
+# Runs the repository's own suite with the verification guard OFF (no build tag, no overlay): the stable baseline.
+# stdout: the `go test -json` event stream (same shape as the pinned baseline command); stderr: "passed=N failed=M" + failing tests.
+# exit 0 iff no test failed and at least one passed.
 export GOFLAGS=-mod=mod GOPROXY=off GOSUMDB=off GOTOOLCHAIN=local
 REPO=${VERIF_REPO:-/repo}
 cd "$REPO" || exit 2
@@ -7,12 +9,13 @@ go test -json -vet=off -count=1 -timeout 25m ./... 2>&1 | python3 -c '
 import sys, json
 p=f=0; failed=[]
 for l in sys.stdin:
+    sys.stdout.write(l)
     try: e=json.loads(l)
     except Exception: continue
     if e.get("Test") and e.get("Action") in ("pass","fail"):
         if e["Action"]=="pass": p+=1
         else: f+=1; failed.append(e["Package"]+"::"+e["Test"])
-print("passed=%d failed=%d"%(p,f))
-for x in failed: print("FAIL",x)
+sys.stderr.write("passed=%d failed=%d\n"%(p,f))
+for x in failed: sys.stderr.write("FAIL "+x+"\n")
 sys.exit(1 if f or p==0 else 0)
 '
